@@ -203,8 +203,8 @@ def c16(tier):
     cases += mk("rules", 20 if q else 400, s + 4, "odd", mode="pairs", nrules=60) + mk("rules", 4 if q else 40, s + 5, "odd", mode="bad")
     res = run_cases(cases)
     return report("C16", "exploration", res,
-                  "every single matcher x operand (53 adversarial strings: empty, prefixes/suffixes of each other, case variants, non-ASCII, the bytes next to the ASCII letter blocks, longer than any path) x "
-                  "{no option, caseInsensitive true, false} evaluated by get/fetch against 52 paths (exhaustive in both tiers), "
+                  "every single matcher x operand (58 adversarial strings: empty, prefixes/suffixes of each other, case variants, non-ASCII, the bytes next to the ASCII letter blocks, longer than any path, 255 / 256 / 300 bytes long) x "
+                  "{no option, caseInsensitive true, false} evaluated by get/fetch against 53 paths (one of 255 bytes) (exhaustive in both tiers), "
                   "random rules of 2-6 matchers, ill-formed rules (unknown names incl. every near-miss of a matcher / option name: longer, shorter, other case, padded; mistyped operands, too many matchers, repeated option key); oracle: independent "
                   "Python matcher (byte-wise / ASCII case folding); refused rules must leave nothing registered; distinct = (matcher set, option) signatures",
                   t0, tier, SIM_ASSUME, extra_cov={"exhaustive": False, "single_matcher_product_exhaustive": True}, min_events={"get_checks": 300, "rule_path_evaluations": 10000})
@@ -377,7 +377,11 @@ def c15(tier):
         step = 2 if q else 1
         off = s % step
         for i in range(off, n, step):
-            cases.append(dict(kind="allocfail", seed=i, config="default", params=dict(script=r.case["params"]["script"], nth=i)))
+            for site in ((None,) if q else (0, 1)):
+                prm_ = dict(script=r.case["params"]["script"], nth=i)
+                if site is not None:
+                    prm_["site"] = site
+                cases.append(dict(kind="allocfail", seed=i, config="default", params=prm_))
     import random
     rng = random.Random(s)
     for r in cres:      # random double faults
@@ -397,7 +401,7 @@ def c15(tier):
                   "plus random 2-5 consecutive failures, plus an authorised password change (credential file in place) with every allocation failing once: answer, accepted credentials and file must agree (old XOR new), an add / change / remove with every allocation failing once: a fresh connection must read back what the answer said (refused = exactly as before), a fetch / unfetch with every allocation failing once: the subscription exists completely or not at all, as answered, plus bus histories under a 256 KiB heap cap that ordinary adds reach; oracle: sanitizers, at most one response per request, only the connection whose processing hit the "
                   "failure may be dropped, a fresh connection is served normally afterwards, idle baseline after closing, clean SIGTERM exit with LeakSanitizer; "
                   "distinct = (script, transport of the victim) signatures; allocations counted: %d" % total,
-                  t0, tier, SIM_ASSUME + ["only allocations through cjet_malloc/cjet_calloc (incl. cJSON hooks) are failed; zlib/websocket plain malloc is not used by the daemon's enabled features"],
+                  t0, tier, SIM_ASSUME + ["allocations through cjet_malloc/cjet_calloc (incl. cJSON hooks) are failed, either by the accounting allocator refusing or by the C library returning NULL inside it; zlib/websocket plain malloc is not used by the daemon's enabled features"],
                   extra_cov={"allocations_in_corpus": total, "exhaustive": not q}, min_events={"faults_fired": 100, "probes": 100})
 
 
